@@ -71,6 +71,9 @@ type Walker struct {
 	Inject    func(e *Effect) []*Atom
 	Assume    []*Atom
 	AutoSplit bool
+	// DescendSpawn: also walk the function handed to time.AfterFunc (it runs later on another goroutine: no facts of
+	// the spawning point are passed, only the values it captures)
+	DescendSpawn bool
 	splits    []string
 	entryFn   *ssa.Function
 	retChoice map[ssa.Instruction]*ssa.Return
@@ -404,6 +407,20 @@ func (w *Walker) instr(in ssa.Instruction, c *FCtx, fl *Flow, facts Facts, path 
 			}
 		}
 		w.emit(eff)
+		if w.DescendSpawn && name == "time.AfterFunc" && len(args) == 2 && (args[1].Op == "closure" || args[1].Op == "func") {
+			if f := a.P.FuncByID[args[1].Name]; f != nil && f.Blocks != nil && !onPath[f] {
+				env := bindEnv(a, f, nil, args[1].Args)
+				for _, p := range f.FreeVars {
+					if s := a.singletonOf(p.Type()); s != "" {
+						env[p] = This(s)
+					} else if env[p] == nil {
+						env[p] = Unk("free:" + funcID(f) + ":" + p.Name())
+					}
+				}
+				np := append(append([]Frame{}, path...), Frame{Fn: funcID(f), Site: a.P.InstrPos(in) + "(timer)", CallerC: c, Call: in})
+				w.visit(f, env, Facts{}, np, onPath)
+			}
+		}
 		for _, f := range callees {
 			if f.Blocks == nil || !inLibraryScope(funcPkgPath(f)) || isSpecTypesPkg(funcPkgPath(f)) {
 				continue
